@@ -4,7 +4,7 @@ use super::*;
 /// (theme, is a known-finding region).  A case is generated from exactly one theme; its tags are the theme name plus
 /// measurement tags.  Themes marked `true` are the regions of `known_findings.d/C16.json`; the generator gives them
 /// at most 30 % of the cases.
-pub const THEMES: [(&str, bool); 29] = [
+pub const THEMES: [(&str, bool); 32] = [
     ("valid", false),
     ("random_chars", false),
     ("lossy_bytes", false),
@@ -29,6 +29,9 @@ pub const THEMES: [(&str, bool); 29] = [
     ("ddl_alter", true),
     ("star_expr", true),
     ("sess_dml", true),
+    ("atomicity", true),
+    ("sess_atomicity", true),
+    ("unique_violation", true),
     ("q_div0", true),
     ("q_overflow", true),
     ("q_case", true),
@@ -604,6 +607,68 @@ fn upd_upd_del(ops: &[String]) -> bool {
     false
 }
 
+
+/// statements that fail (or not) after having processed some rows: a failed statement must leave nothing behind
+fn add_tag(tags: &mut Vec<String>, x: &str) {
+    if !tags.iter().any(|y| y == x) {
+        tags.push(x.to_string())
+    }
+}
+
+fn atomicity_stmt(r: &mut Rng, s: &[Table], tags: &mut Vec<String>, unique: bool) -> String {
+    let t = any_table(r, s);
+    let good = |r: &mut Rng, id: i64| format!("({})", row_sql(r, t, id));
+    let base = 500 + r.range(0, 400);
+    // statements on a table with a UNIQUE column belong to the theme `unique_violation`
+    let kind = if unique { [3u64, 4, 4, 5, 6, 0, 8][r.below(7) as usize] } else { [0u64, 1, 2, 7, 8][r.below(5) as usize] };
+    match kind {
+        0 => {
+            add_tag(tags, "multi_insert_ok");
+            format!("INSERT INTO {} VALUES {}, {}, {}", t.name, good(r, base), good(r, base + 1), good(r, base + 2))
+        }
+        1 => {
+            add_tag(tags, "multi_insert_bad_type_last");
+            let bad: Vec<String> = t.cols.iter().enumerate().map(|(i, (_, ty))| if i == 0 { (base + 2).to_string() } else if *ty == 't' { "TRUE".to_string() } else { "'zz'".to_string() }).collect();
+            format!("INSERT INTO {} VALUES {}, {}, ({})", t.name, good(r, base), good(r, base + 1), bad.join(", "))
+        }
+        2 => {
+            add_tag(tags, "multi_insert_bad_arity_last");
+            format!("INSERT INTO {} VALUES {}, {}, ({})", t.name, good(r, base), good(r, base + 1), base + 2)
+        }
+        3 => {
+            add_tag(tags, "unique_table");
+            "CREATE TABLE nt (id BIGINT, v INT, w TEXT, UNIQUE(v))".to_string()
+        }
+        4 => {
+            add_tag(tags, "multi_insert_unique_last");
+            let v = r.range(0, 50);
+            format!("INSERT INTO nt VALUES ({}, {}, 'a'), ({}, {}, 'b'), ({}, {}, 'c')", base, v, base + 1, v + 1, base + 2, v)
+        }
+        5 => {
+            add_tag(tags, "update_unique_all");
+            format!("UPDATE nt SET v = {}", r.range(0, 50))
+        }
+        6 => {
+            add_tag(tags, "multi_insert_null_last");
+            format!("INSERT INTO nt VALUES ({}, {}, 'a'), ({}, NULL, NULL), (NULL, NULL, NULL)", base, 100 + r.range(0, 900), base + 1)
+        }
+        7 => {
+            add_tag(tags, "update_bad_type_all");
+            let c = any_col(r, t).clone();
+            format!("UPDATE {} SET {} = {}", t.name, c.0, if c.1 == 't' { "TRUE" } else { "'zz'" })
+        }
+        _ => {
+            // doubles the table: at most twice per case
+            if tags.iter().filter(|x| x.starts_with("insert_select")).count() >= 2 {
+                return format!("SELECT COUNT(*) FROM {}", t.name);
+            }
+            let k = tags.iter().filter(|x| x.starts_with("insert_select")).count();
+            tags.push(format!("insert_select{}", k + 1));
+            format!("INSERT INTO {} SELECT * FROM {}", t.name, t.name)
+        }
+    }
+}
+
 fn star_expr_stmt(r: &mut Rng, s: &[Table], tags: &mut Vec<String>) -> String {
     let t = any_table(r, s);
     let c = any_col(r, t).0.clone();
@@ -634,13 +699,29 @@ fn xop_bytes(bs: &[u8]) -> String {
 
 pub fn gen_case(theme: &str, r: &mut Rng) -> Case {
     let schema = gen_schema(r);
-    let mut sess = theme == "sess_dml" || r.chance(1, 3);
+    let mut sess = theme == "sess_dml" || theme == "sess_atomicity" || (theme != "atomicity" && theme != "unique_violation" && r.chance(1, 3));
     let pool = 1 + r.below(3) as usize;
     let mut tags: Vec<String> = vec![theme.to_string(), format!("pool{pool}"), format!("tables{}", schema.len())];
     let mut ops: Vec<String> = Vec::new();
     let n = 12 + r.below(16) as usize;
     match theme {
-        "valid" => (0..n).for_each(|_| ops.push(xop(&valid_stmt(r, &schema)))),
+        "valid" => {
+            (0..n).for_each(|_| ops.push(xop(&valid_stmt(r, &schema))));
+            // multi-row inserts that succeed, and up to two INSERT … SELECT from the table itself
+            for k in 0..3 {
+                let t = any_table(r, &schema);
+                let base = 500 + 10 * k + r.range(0, 5);
+                let at = r.below(ops.len() as u64) as usize;
+                let sql = if k < 2 && r.chance(1, 2) {
+                    tags.push(format!("insert_select{}", k + 1));
+                    format!("INSERT INTO {} SELECT * FROM {}", t.name, t.name)
+                } else {
+                    add_tag(&mut tags, "multi_insert_ok");
+                    format!("INSERT INTO {} VALUES ({}), ({}), ({})", t.name, row_sql(r, t, base), row_sql(r, t, base + 1), row_sql(r, t, base + 2))
+                };
+                ops.insert(at, xop(&sql));
+            }
+        }
         "random_chars" => (0..n).for_each(|_| ops.push(xop(&random_chars(r)))),
         "lossy_bytes" => (0..n).for_each(|_| {
             let bs = r.rbytes(0, 300);
@@ -666,6 +747,10 @@ pub fn gen_case(theme: &str, r: &mut Rng) -> Case {
                 m = v;
             }
             ops.push(xop(&m))
+        }),
+        "atomicity" | "sess_atomicity" | "unique_violation" => (0..n).for_each(|_| {
+            let v = if r.chance(1, 4) { valid_stmt(r, &schema) } else { atomicity_stmt(r, &schema, &mut tags, theme == "unique_violation") };
+            ops.push(xop(&v))
         }),
         "star_expr" => (0..n).for_each(|_| {
             let v = if r.chance(1, 3) { valid_stmt(r, &schema) } else { star_expr_stmt(r, &schema, &mut tags) };
@@ -734,7 +819,7 @@ pub fn gen_case(theme: &str, r: &mut Rng) -> Case {
         }
     }
     // outside the theme `sess_dml`, a sequence with UPDATE, UPDATE, DELETE runs in autocommit mode
-    if theme != "sess_dml" && sess && upd_upd_del(&ops) {
+    if theme != "sess_dml" && theme != "sess_atomicity" && sess && upd_upd_del(&ops) {
         sess = false;
         tags.push("forced_db".into());
     }
